@@ -7,7 +7,7 @@ from typing import Dict, List, Optional, Set, Tuple
 
 from .core import AnalysisError, Report
 from .emit import Folder
-from .prog import (Program, bind_call, func_params, inline_locals, local_assignments, parent, unparse,
+from .prog import (Program, bind_call, func_params, guards_of, inline_locals, local_assignments, parent, unparse,
                    walk_no_nested)
 
 SCRIPTS = {"pybind": "scripts/pybind_wrap.py", "matlab": "scripts/matlab_wrap.py"}
@@ -42,6 +42,41 @@ def rule_submodule_contract(ctx, rep: Report, rid="Y2"):
     rep.add(rid, "main file:the submodule list reaches wrap_file", "submodules" in mb and
             isinstance(mb["submodules"], ast.Name) and any(unparse(c.func.value) == mb["submodules"].id for c in apps),
             f"submodules={unparse(mb['submodules']) if 'submodules' in mb else None}", f"{ci.mod.rel}:{wrap.lineno}")
+    # 1b. what a file contributes besides the module definition does not depend on whether it is the main file:
+    #     only module_def / submodules / submodules_init may be computed under a test of the submodule list
+    sp = "submodules" if "submodules" in func_params(wf) else None
+    fmt = next((c for c in walk_no_nested(wf) if isinstance(c, ast.Call) and isinstance(c.func, ast.Attribute) and c.func.attr == "format"
+                and "module_template" in unparse(c.func.value)), None)
+    if sp is None or fmt is None:
+        raise AnalysisError("wrap_file: submodules parameter / module template format call not found")
+    role_slots = set()
+    for k in fmt.keywords:
+        if k.arg and any(isinstance(x, ast.Name) and x.id == sp for x in ast.walk(k.value)):
+            role_slots.add(k.arg)
+    for k in fmt.keywords:
+        if k.arg is None:
+            continue
+        names = {x.id for x in ast.walk(k.value) if isinstance(x, ast.Name)}
+        cond = []
+        for st in walk_no_nested(wf):
+            tg = None
+            if isinstance(st, ast.Assign):
+                tg = [t.id for t in st.targets if isinstance(t, ast.Name)]
+            elif isinstance(st, ast.AugAssign) and isinstance(st.target, ast.Name):
+                tg = [st.target.id]
+            elif isinstance(st, ast.Expr) and isinstance(st.value, ast.Call) and isinstance(st.value.func, ast.Attribute) \
+                    and isinstance(st.value.func.value, ast.Name) and st.value.func.attr in ("append", "extend", "insert"):
+                tg = [st.value.func.value.id]
+            if not tg or not (set(tg) & names):
+                continue
+            gs = [t for t, pol in guards_of(st, wf, include_exits=False) if sp in [x.id for x in ast.walk(ast.parse(t, mode="eval")) if isinstance(x, ast.Name)]]
+            if gs:
+                cond.append((st.lineno, gs[0]))
+        main_only = k.arg in ("module_def", "submodules", "submodules_init") or k.arg in role_slots
+        rep.add(rid, f"wrap_file:{{{k.arg}}}:computed the same way for the main file and for an additional file", main_only or not cond,
+                f"{{{k.arg}}} is built under `{cond[0][1] if cond else ''}` (line {cond[0][0] if cond else 0}): an additional file wrapped as a "
+                f"submodule loses / gains this part compared with wrapping the same text alone (e.g. the BOOST_CLASS_EXPORT block and its "
+                f"#include only in the main file)", f"{ci.mod.rel}:{cond[0][0] if cond else wf.lineno}", nontrivial=not main_only)
     # 2. the three templates agree on the signature and on the module variable
     fo = Folder(prog, ci.mod, wf, ci)
     tpls = {}
@@ -127,6 +162,39 @@ PLUMBING = {
 }
 
 
+# options whose value is, by design, not handed over as it is: one reason each (their derivation is decided by the named rule)
+DERIVED_OPTIONS = {
+    "--top_module_namespaces": "a `::`-separated path becomes the list of its components (Y3: option plumbing, namespace form)",
+    "--template": "a file name; the API receives the file's content (C14/R5 decides what is read)",
+}
+
+
+def _values(scope, e: ast.AST) -> List[ast.AST]:
+    """All values a local may hold at its use (every assignment in the scope), the expression itself otherwise."""
+    if isinstance(e, ast.Name):
+        vs = [st.value for st in ast.walk(scope) if isinstance(st, ast.Assign) and any(isinstance(t, ast.Name) and t.id == e.id for t in st.targets)]
+        if vs:
+            out = []
+            for v in vs:
+                out += _values(scope, v) if isinstance(v, ast.Name) and v.id != e.id else [v]
+            return out
+    return [e]
+
+
+def _is_option_itself(v: ast.AST, av: str, dest: str) -> bool:
+    """args.<dest>, or `args.<dest> or <empty literal>` (a None guard)."""
+    def opt(x):
+        return isinstance(x, ast.Attribute) and x.attr == dest and isinstance(x.value, ast.Name) and x.value.id == av
+    if opt(v):
+        return True
+    if isinstance(v, ast.BoolOp) and isinstance(v.op, ast.Or) and len(v.values) == 2 and opt(v.values[0]):
+        d = v.values[1]
+        return (isinstance(d, (ast.List, ast.Tuple)) and not d.elts) or (isinstance(d, ast.Constant) and d.value in ("", None))
+    if isinstance(v, ast.IfExp) and opt(v.body) and isinstance(v.orelse, (ast.List, ast.Tuple, ast.Constant)):
+        return True
+    return False
+
+
 def _mentions(scope, e: ast.AST, dest: str, depth=4) -> bool:
     """Does expression e (through locals) depend on <args>.<dest>?"""
     av = _args_var(scope)
@@ -176,6 +244,15 @@ def rule_option_plumbing(ctx, rep: Report, rid="Y3"):
                 rep.add(rid, f"{which}:{flag} -> {cls.qual}({p}=...)", ok,
                         f"constructor receives {p}={unparse(b[p]) if p in b else 'nothing'}, which does not depend on "
                         f"args.{o['dest']}", f"{rel}:{ctor.lineno}")
+                if ok and flag not in DERIVED_OPTIONS:
+                    # the script adds nothing of its own: the API given the same value produces the same output
+                    vals = _values(scope, b[p])
+                    plain = all(_is_option_itself(v, av, o["dest"]) for v in vals)
+                    rep.add(rid, f"{which}:{flag}:reaches the API as given on the command line", plain,
+                            f"{p} <- {[unparse(v)[:70] for v in vals]}: the script rewrites the option value before handing it to "
+                            f"{cls.qual} (splitting, filtering, normalising), so the script and the API given the same value produce "
+                            f"different output (e.g. an ignore entry `ns::Table<int, double>` split at the blank matches nothing)",
+                            f"{rel}:{ctor.lineno}")
             elif kind[0] == "call":
                 for meth, pos in kind[1:]:
                     calls = [c for c in ast.walk(scope) if isinstance(c, ast.Call) and isinstance(c.func, ast.Attribute) and c.func.attr == meth]
